@@ -9,7 +9,8 @@
      topological order exists iff acyclic and respects every edge; spanning forests acyclic, spanning, of
      minimum weight (brute force over edge subsets), Kruskal = Prim weight on connected graphs; max flow =
      min cut (brute force over cuts); traversals visit exactly the reachable set, each node once;
-     triangles / bridges / articulation points by brute force; PageRank sums to 1. *)
+     triangles / bridges / articulation points by brute force; PageRank sums to 1; degree, closeness (standard and
+     Wasserman-Faust) and betweenness centrality and local / global clustering coefficients equal their definitions. *)
 EXTENDS Naturals, Integers, Sequences, FiniteSets, TLC, Json, IOUtils
 Cases == ndJsonDeserialize(IOEnv.TRACE)
 VARIABLE l
@@ -121,6 +122,53 @@ RECURSIVE Peel(_, _, _)
 Peel(c, S, k) == LET T == {v \in S : Cardinality({u \in S : Adj(c, u, v)}) >= k} IN IF T = S THEN S ELSE Peel(c, T, k)
 CoreNum(c, v) == Max({k \in 0..c.n : v \in Peel(c, Nodes(c), k)})
 KCoreOk(c, r) == (\A v \in Nodes(c) : r.core[v] = CoreNum(c, v)) /\ r.max = Max({CoreNum(c, v) : v \in Nodes(c)})
+\* ---- centrality and clustering.  Fractions are recorded in millionths (rounded); a recorded r equals num / den when
+\* |r * den - num * 10^6| <= den * tol (tol = 1 covers the rounding of the record; sums of rounded terms get more).
+Abs(x) == IF x < 0 THEN 0 - x ELSE x
+FracOk(r, num, den, tol) == IF den = 0 THEN r = 0 ELSE Abs(r * den - num * 1000000) <= den * tol
+RECURSIVE SumF(_, _)
+SumF(S, f) == IF S = {} THEN 0 ELSE LET x == CHOOSE y \in S : TRUE IN f[x] + SumF(S \ {x}, f)
+OutDeg(c, v) == Cardinality({e \in E(c) : Src(c, e) = v})
+InDeg(c, v) == Cardinality({e \in E(c) : Dst(c, e) = v})
+DegreeOk(c, r) == \A v \in Nodes(c) :
+  /\ r.outd[v] = OutDeg(c, v) /\ r.ind[v] = InDeg(c, v) /\ r.tot[v] = OutDeg(c, v) + InDeg(c, v)
+  /\ (IF c.n <= 1 THEN r.norm[v] = 0 ELSE FracOk(r.norm[v], OutDeg(c, v) + InDeg(c, v), c.n - 1, 1))
+\* closeness over outgoing hop distances: reachable / total distance; Wasserman-Faust scales it by reachable / (n - 1)
+ClosenessOk(c, r) == \A s \in Nodes(c) :
+  LET h == Hop(c, s)
+      R == {v \in Nodes(c) \ {s} : h[v] < INF}
+      tot == SumF(R, [v \in R |-> h[v]])
+  IN IF R = {} THEN r.std[s] = 0 /\ r.wf[s] = 0
+     ELSE FracOk(r.std[s], Cardinality(R), tot, 1) /\ FracOk(r.wf[s], Cardinality(R) * Cardinality(R), (c.n - 1) * tot, 1)
+\* number of shortest (fewest-hops) paths s ~> v, parallel edges counted as different paths
+RECURSIVE SigmaR(_, _, _, _, _)
+SigmaR(c, s, h, k, sig) ==
+  IF k > c.n THEN sig
+  ELSE SigmaR(c, s, h, k + 1, [v \in Nodes(c) |-> IF h[v] = k THEN LET In == {e \in E(c) : Dst(c, e) = v /\ h[Src(c, e)] = k - 1} IN SumF(In, [e \in In |-> sig[Src(c, e)]]) ELSE sig[v]])
+Sigma(c, s) == SigmaR(c, s, Hop(c, s), 1, [v \in Nodes(c) |-> IF v = s THEN 1 ELSE 0])
+\* betweenness of v (directed, unnormalised) = sum over s # v # t of the fraction of shortest s ~> t paths through v, in millionths
+Betw(c, v) ==
+  LET Pairs == {p \in (Nodes(c) \ {v}) \X (Nodes(c) \ {v}) : p[1] # p[2]}
+      hv == Hop(c, v)  sv == Sigma(c, v)
+  IN SumF(Pairs, [p \in Pairs |->
+                    LET hs == Hop(c, p[1]) IN
+                    IF hs[p[2]] < INF /\ hs[v] < INF /\ hv[p[2]] < INF /\ hs[v] + hv[p[2]] = hs[p[2]]
+                    THEN LET ss == Sigma(c, p[1]) IN (ss[v] * sv[p[2]] * 1000000) \div ss[p[2]] ELSE 0])
+BetweennessOk(c, r) == \A v \in Nodes(c) :
+  LET b == IF c.n <= 2 THEN 0 ELSE Betw(c, v) IN
+  /\ Abs(r.raw[v] - b) <= 20
+  /\ (IF c.n <= 2 THEN r.norm[v] = 0 ELSE Abs(r.norm[v] * (c.n - 1) * (c.n - 2) - 2 * b) <= 40 + (c.n - 1) * (c.n - 2))
+\* clustering on the undirected simple graph: triangles at v over pairs of neighbours; global = mean of the local values
+Nbrs(c, v) == {u \in Nodes(c) : Adj(c, u, v)}
+TriAt(c, v) == Cardinality({P \in SUBSET Nbrs(c, v) : Cardinality(P) = 2 /\ \A a, b \in P : a = b \/ Adj(c, a, b)})
+ClusteringOk(c, r) ==
+  /\ \A v \in Nodes(c) : LET k == Cardinality(Nbrs(c, v)) IN
+        /\ r.tri[v] = TriAt(c, v)
+        /\ (IF k < 2 THEN r.local[v] = 0 ELSE FracOk(r.local[v], TriAt(c, v), (k * (k - 1)) \div 2, 1))
+        /\ r.local2[v] = r.local[v]
+  /\ r.total = Triangles(c)
+  /\ r.global = r.global2
+  /\ (IF c.n = 0 THEN r.global = 0 ELSE Abs(r.global * c.n - SumF(Nodes(c), [v \in Nodes(c) |-> r.local[v]])) <= c.n)
 Parts(c) ==
   << <<"dijkstra", \A s \in Nodes(c) : DistMapOk(c, s, c.dijkstra[s])>>,
      <<"bellman_ford", \A s \in Nodes(c) : DistMapOk(c, s, c.bellman[s])>>,
@@ -148,7 +196,11 @@ Parts(c) ==
      <<"dfs", \A s \in Nodes(c) : DfsOk(c, s, c.dfs[s])>>,
      <<"triangles", c.triangles = Triangles(c)>>,
      <<"articulation_points", Rng(c.artic) = ArtPoints(c)>>,
-     <<"pagerank", c.pagerank_ok>> >>
+     <<"pagerank", c.pagerank_ok>>,
+     <<"degree_centrality", DegreeOk(c, c.degree)>>,
+     <<"closeness_centrality", ClosenessOk(c, c.closeness)>>,
+     <<"betweenness_centrality", BetweennessOk(c, c.betweenness)>>,
+     <<"clustering_coefficient", ClusteringOk(c, c.clustering)>> >>
 Failing(c) == IF c.panic THEN {"panic"} ELSE LET P == Parts(c) IN {P[i][1] : i \in {j \in DOMAIN P : ~P[j][2]}}
 Init == l = 1
 Step == /\ l <= Len(Cases)
